@@ -8,3 +8,8 @@ import BklProofs.C20
 #print axioms Bkl.C20_first_failure
 #print axioms Bkl.C20_step_error
 #print axioms Bkl.C20_name
+#print axioms Bkl.C20_args_independent
+#print axioms Bkl.C20_format_is_named_extension
+#print axioms Bkl.C20_failure_classes
+#print axioms Bkl.C20_verbatim_only_if_nomatch
+#print axioms Bkl.C20_failure_classes_examples
